@@ -41,6 +41,7 @@ import (
 	"rivaas.dev/app"
 	"rivaas.dev/logging"
 	"rivaas.dev/metrics"
+	"rivaas.dev/router"
 	"rivaas.dev/tracing"
 	"verif/harness/hx"
 )
@@ -148,16 +149,19 @@ type Scenario struct {
 	// their write deadline, and the requests released "during the drain" are released only 250 ms into it.
 	// Effective only when nothing else waits (no hook that holds on, no request that is never released).
 	ShortWrite bool `json:",omitempty"`
-	Metrics    bool
-	Tracing    bool
-	Listen     int
-	Starts     []int
-	Readies    []int
-	NReload    int
-	Shuts      []int
-	Stops      []int
-	Reqs       []Rel
-	Rounds     []Round
+	// RawRoute: the requests held in flight go to a route registered on the router itself (a.Router().GET), not
+	// through app.GET (not on the abstract case line: the model does not distinguish it)
+	RawRoute bool `json:",omitempty"`
+	Metrics  bool
+	Tracing  bool
+	Listen   int
+	Starts   []int
+	Readies  []int
+	NReload  int
+	Shuts    []int
+	Stops    []int
+	Reqs     []Rel
+	Rounds   []Round
 }
 
 func (sc *Scenario) shortWrite() bool {
@@ -1204,7 +1208,9 @@ func (r *runner) build() error {
 		c.Response.Header().Set("X-Verif-Case", r.id)
 		_ = c.String(200, "ok")
 	})
-	a.GET("/r/:k", func(c *app.Context) {
+	// held requests: through an app route (app.Context) or — RawRoute — through a route registered on the router
+	// itself (a.Router().GET: an ordinary way to add routes, no app-level wrapper around the handler)
+	held := func(c *router.Context, ac *app.Context) {
 		k, _ := strconv.Atoi(c.Param("k"))
 		if k < 0 || k >= len(r.reqs) {
 			_ = c.String(404, "no")
@@ -1217,8 +1223,8 @@ func (r *runner) build() error {
 				r.discard = "the write deadline cannot be lifted through this response writer: " + err.Error()
 			}
 		}
-		if sc.Reqs[k].Kind == "J" {
-			r.hijacked(c, k, q)
+		if sc.Reqs[k].Kind == "J" && ac != nil {
+			r.hijacked(ac, k, q)
 			return
 		}
 		r.ev(fmt.Sprintf("q %d", k))
@@ -1228,7 +1234,9 @@ func (r *runner) build() error {
 			r.ev(fmt.Sprintf("Q %d %s", k, b2s(r.probeMetrics())))
 		}
 		_ = c.String(200, payload)
-	})
+	}
+	a.GET("/r/:k", func(c *app.Context) { held(c.Context, c) })
+	a.Router().GET("/rr/:k", func(c *router.Context) { held(c, nil) })
 
 	// instrumentation hook (not logged): wait until the metrics server accepts, so that "still open"
 	// and "closed" are both decidable with a single connect attempt later on
@@ -1644,7 +1652,11 @@ func (r *runner) controller() {
 		q := r.reqs[k]
 		go func() {
 			defer close(q.done)
-			req, _ := http.NewRequest("GET", r.appURL(fmt.Sprintf("/r/%d", k)), nil)
+			path := "/r/%d"
+			if sc.RawRoute && sc.Reqs[k].Kind != "J" {
+				path = "/rr/%d"
+			}
+			req, _ := http.NewRequest("GET", r.appURL(fmt.Sprintf(path, k)), nil)
 			req.Close = true
 			cl := &http.Client{Transport: r.newTransport()}
 			resp, err := cl.Do(req)
